@@ -54,6 +54,8 @@ type Walk struct {
 	Height     int
 	// RootTime, when non-nil, replaces the root's mtime in the dump (canonicalisation of time.Now())
 	RootTime *time.Time
+	// CanonLeaf prints every dag-pb node without links as type "L" (C10: File- and Raw-typed leaves mix)
+	CanonLeaf bool
 }
 
 func NewWalk(ds ipld.DAGService) *Walk {
@@ -87,6 +89,9 @@ func (wk *Walk) Dump(n ipld.Node, depth int) (uint64, []byte) {
 			ty = "F"
 		case pb.Data_Raw:
 			ty = "W"
+		}
+		if wk.CanonLeaf && len(nd.Links()) == 0 {
+			ty = "L"
 		}
 		bss := make([]string, len(fsn.BlockSizes()))
 		for i, b := range fsn.BlockSizes() {
